@@ -6,5 +6,6 @@ CONSTANTS
     MaxPoolOps = 1000000
     CreateUnderLock = TRUE
     MayFail = TRUE
+    MayForget = TRUE
 INVARIANTS TypeOK MutexOK OwnerOK Exclusive IdleDisjoint Conservation ReuseOK DataIntact
 POSTCONDITION Accepted
